@@ -183,6 +183,7 @@ def build_item(repo, blk, cache):
     edits = []   # (pos_abs, del_len, ins_text, tag)
     def add(pos, dl, ins, tag): edits.append((pos, dl, ins, tag))
     rewrites = []
+    skipped_opt = []
     # R16: adapt ghost text and anchors to renamed locals / parameters (see rename_map)
     ren = rename_map(blk, text) if item.kind == "fn" else {}
     if ren:
@@ -367,7 +368,9 @@ def build_item(repo, blk, cache):
             p = text.find(anchor, p + 1)
             if p < 0: break
         if p < 0:
-            if aopt: continue
+            if aopt:
+                # a skipped optional hint: obligations of this function that fail may fail for want of the hint (undecided-class)
+                rewrites.append({"id": "skipped-optional-anchor", "anchor": anchor}); skipped_opt.append(anchor); continue
             raise ToolError("LOST-ANCHOR //@%s %r #%d not found in %s :: %s" % (where, anchor, k, blk.file, blk.path))
         if where == "before":
             ls = text.rfind("\n", 0, p) + 1
@@ -402,7 +405,7 @@ def build_item(repo, blk, cache):
         "sha256": hashlib.sha256(text.encode()).hexdigest(),
         "rewrites": rewrites, "trusted": blk.trusted, "serves": blk.serves,
         "has_contract": blk.spec is not None,
-        "adapted": bool(ren),
+        "adapted": bool(ren) or bool(skipped_opt),
         "stripped_inner_attrs": sum(1 for e in edits if e[3] == "strip-attr"),
     }
     return gen, out, info, src
